@@ -5,7 +5,7 @@ from .. import core, paje, tracegen
 class C47(core.Prop):
     id = "C47"
     drivers = [tracegen.DRIVER, "mpi_interp"]
-    sizes = {"quick": 600, "thorough": 30000}
+    sizes = {"quick": 450, "thorough": 30000}
     max_workers = 6
     ready = True
     technique = ("property-based testing (Hypothesis): generated S4U programs run with generated tracing options; the Paje file is "
@@ -14,12 +14,16 @@ class C47(core.Prop):
             "asynchronous comms, sleeps, on 3 hosts with shared links and a disk) plus actor life-cycle operations inserted at random places "
             "(spawn of 1-2 templates on any host, kill, set_host on oneself or on another actor, suspend / resume, daemons), categorized execs and "
             "sends, user marks and user host variables; x a random subset of tracing/actor, uncategorized, categorized, platform, "
-            "platform/topology:no, basic, disable-destroy, disable_link, disable_power, precision 0-12.  Class 2: MPI programs on drivers/mpi_interp "
+            "platform/topology:no, basic, disable-destroy, disable_link, disable_power, precision 0-12; one case in three makes 2-3 actors on "
+            "distinct hosts begin with execs of different sizes with resource-utilisation tracing on (retroactive events that must be sorted in "
+            "front of the buffered ones).  Class 2: MPI programs on drivers/mpi_interp "
             "(1-6 ranks x <= 10 steps: barrier, bcast, reduce, allreduce, gather, scatter, allgather, alltoall, scan, matched send/ssend+recv, "
             "sendrecv ring, isend/irecv ring + waitall, simulated sleeps; collective selector default / mpich / ompi / mvapich2) x tracing/smpi with "
             "internals, computing, sleeping, display-sizes, group, basic, uncategorized, platform, disable-destroy, precision.  Oracle: vf/paje.py, "
             "an independent validator of the Paje file: every event defined in the header with the declared number of fields; container types, "
-            "variable / state / event / link types, entity values and containers defined before use; timestamps never decrease along the file; "
+            "variable / state / event / link types, entity values and containers defined before use; timestamps never decrease along the file "
+            "(a decrease is classified against the flushes visible in the trace: behind a line that an earlier flush wrote = the known retroactive "
+            "class, between two events that were buffered together = buffer-order, never known); "
             "no event on a destroyed container, no double destruction; PajePopState never on an empty stack and nothing left pushed when a "
             "container goes (unless its actor was killed, or ended with a pending asynchronous comm); every link key started once and ended once.  "
             "A run that only crashes with tracing on (same program re-run without tracing) or a tracing exception thrown into an operation is a "
@@ -29,6 +33,8 @@ class C47(core.Prop):
                    "aliases re-used) is counted as 'remark-*' labels, not reported",
                    "a state left pushed on the container of an actor that was killed while sleeping / computing / communicating, or that ended with "
                    "an asynchronous communication still pending, is tolerated",
+                   "with tracing/disable-destroy and containers destroyed during the run the flushes are invisible: a decreasing variable event then "
+                   "falls into a wider known class (a mis-sorted buffer cannot be told from a retroactive event there)",
                    "TI (time-independent) traces, tracing/vm and the tracing/smpi/format options are not covered",
                    "programs that do not complete WITHOUT tracing are counted invalid (their crash belongs to other properties)"]
 
@@ -53,7 +59,7 @@ class C47(core.Prop):
                 oc.invalid = True
                 oc.info = {"failure": fail[0]}
             return oc
-        bad, stats = paje.validate(text)
+        bad, stats = paje.validate(text, flushes_visible="tracing/disable-destroy" not in case["opts"])
         seen = set()
         has_sendrecv = any(o["op"] == "sendrecv" for o in case["mpi"]["prog"])
         for sig, msg, _ in bad:
@@ -119,7 +125,8 @@ class C47(core.Prop):
                 msgs = [m.group(1) for m in (re.match(r"^\[\s*[\d.]+\] \[[^\]]*\] (.*)$", l) for l in log2.err.splitlines()) if m]
                 oc.labels = ["fails-without-tracing:" + re.sub(r"[^a-z]+", "-", (msgs[-1] if msgs else "rc %s" % log2.rc).lower())[:50]]
             return oc
-        bad, stats = paje.validate(text)
+        # (without tracing/actor no container goes before the end of the simulation: the flush horizon stays 0 even if destructions are not written)
+        bad, stats = paje.validate(text, flushes_visible=not ("tracing/disable-destroy" in case["opts"] and "tracing/actor" in case["opts"]))
         seen = set()
         # an exception of the tracing layer thrown into an operation of the program (the interpreter logs it and goes on)
         import re
@@ -143,6 +150,7 @@ class C47(core.Prop):
                 if d == 0:
                     unpaired.add(l["a"])
                 depth[l["a"]] = max(0, d - 1)
+        unpaired |= {a for a, d in depth.items() if d > 0}        # suspended and never resumed (e.g. it ended before the suspension took effect)
         if unpaired:
             labels.add("unpaired-suspend-resume")
         # an actor that ends while one of its asynchronous communications is still pending leaves its "send"/"receive" state pushed (it is
@@ -178,6 +186,15 @@ class C47(core.Prop):
                 labels.add("has-" + k)
         if stats["created_after_start"]:
             labels.add("container-created-during-run")
+        # resource utilisation traced for activities on different resources that start together and end at different dates: their
+        # retroactive events must be inserted IN FRONT of what is still buffered
+        if "tracing/uncategorized" in case["opts"] or "tracing/categorized" in case["opts"]:
+            by_start = {}
+            for l in log.of("act_end"):
+                if l.get("type") in ("exec", "comm") and "start" in l:
+                    by_start.setdefault(l["start"], set()).add(l["finish"])
+            if any(len(v) >= 2 for v in by_start.values()):
+                labels.add("utilisation-of-activities-starting-together-ending-apart")
         if stats["max_depth"] >= 2:
             labels.add("state-depth>=2")
         for k in stats["remarks"]:
